@@ -905,16 +905,23 @@ func (e *SpecEnv) evalCall(n *ast.CallExpr) *SV {
 		}
 		var best *ssa.Phi
 		for ph := range e.g.cutPhi {
-			if ph.Comment != id.Name || e.g.curBlk == nil || !ph.Block().Dominates(e.g.curBlk) {
+			if ph.Comment != id.Name {
 				continue
+			}
+			if e.g.curBlk != nil && !ph.Block().Dominates(e.g.curBlk) {
+				continue
+			}
+			if e.g.curBlk == nil && (e.g.cutting == nil || ph.Block() != e.g.cutting) {
+				continue // between blocks: only the loop being cut right now
 			}
 			if best == nil || best.Block().Dominates(ph.Block()) {
 				best = ph
 			}
 		}
 		if best == nil {
-			e.fail("atloophead(%s): no enclosing loop carries this variable", id.Name)
-			return nil
+			// at the loop entry (and wherever no cut loop carries x) the value at
+			// the start of the iteration is the current value
+			return e.eval(id)
 		}
 		return &SV{V: e.g.cutPhi[best], St: e.cur}
 	case "loopentry":
